@@ -3052,10 +3052,17 @@ func (c *compiler) emitCallee(callee compiledExpr) (calleeName unistring.String)
 }
 
 func (e *compiledCallExpr) emitGetter(putOnStack bool) {
-	if e.isVariadic {
+	// The callee can be a part of an optional chain and short-circuit to the end of it, so nothing may be left
+	// on the stack while it is evaluated: the variadic marker is inserted afterwards (except for super calls
+	// which do not put the callee on the stack).
+	_, isSuperCall := e.callee.(*compiledSuperExpr)
+	if e.isVariadic && isSuperCall {
 		e.c.emit(startVariadic)
 	}
 	calleeName := e.c.emitCallee(e.callee)
+	if e.isVariadic && !isSuperCall {
+		e.c.emit(startVariadicCallee)
+	}
 
 	for _, expr := range e.args {
 		expr.emitGetter(true)
